@@ -51,7 +51,8 @@ Record carrier_opts := mkOpts {
   o_type : bytestr;            (* VDM / VDO, any case *)
   o_channel : bytestr;
   o_checksum : bytestr;        (* two hex digits, right or wrong *)
-  o_tagblock : option bytestr; (* content between the two backslashes, free of backslashes *)
+  o_tagblock : option bytestr; (* content between the two backslashes: any bytes from 32 up (free text may be UTF-8 or
+                                  Latin-1), free of backslashes *)
   o_trailing : bytestr         (* white space *)
 }.
 
@@ -62,7 +63,7 @@ Definition opts_ok (o : carrier_opts) : bool :=
   (Nat.eqb (length (o_checksum o)) 2) && forallb is_hexdigit (o_checksum o) &&
   match o_tagblock o with
   | None => true
-  | Some tb => negb (Nat.eqb (length tb) 0) && forallb (fun c => negb (c =? BACKSLASH) && (32 <=? c) && (c <=? 126)) tb
+  | Some tb => negb (Nat.eqb (length tb) 0) && forallb (fun c => negb (c =? BACKSLASH) && (32 <=? c) && (c <=? 255)) tb
   end &&
   forallb is_space (o_trailing o).
 
